@@ -744,7 +744,7 @@ type subject struct {
 	src       string
 	form, mod string
 	cat       string
-	level     int // 0: every role; 1: the core roles and one more role in turn; 2: one role in turn; 3: two roles in turn
+	level     int // 0: every role; 1: the core roles and one more role in turn; 2: one role in turn; 3: one role in turn (thorough: the core roles and one more)
 }
 
 // modify gives the form with each modifier. all (thorough tier) adds the variants that the quick tier leaves out.
@@ -767,9 +767,9 @@ func modify(f form, all bool) []subject {
 	if f.cat == "typeexpr" || f.cat == "exprs" { // many forms: unmodified in the core roles, cut short in one role in turn
 		add("plain", 3, join(f.pieces))
 		toks := Tokens([]byte(f.pieces[0]))
-		depth := 3
+		depth := 0 // quick: the lists hold cut-off type expressions and expressions of their own
 		if all {
-			depth = 7
+			depth = 6
 		}
 		for k := len(toks) - 1; k >= 1 && k >= len(toks)-depth; k-- {
 			if t := toks[k-1]; len(t) > 0 && t[0] != ' ' && t[0] != '\n' {
@@ -1200,8 +1200,6 @@ func Forms(r *proto.Rand, quick bool, nRandom int) []FormCase {
 			level = 2
 			if all {
 				level = 1
-			} else {
-				emit(s, rs[(turn+len(rs)/2)%len(rs)])
 			}
 		}
 		if all && level == 2 && s.mod != "nested" { // thorough: two roles in turn
